@@ -47,9 +47,15 @@ def tdea? (K1 : List Nat) (K2 K3 : Option (List Nat)) : Except Err BlockCipher :
   | .error e => .error e
   | .ok _ => .ok (tdea K1 K2 K3)
 
+/-- the Serpent object proper: the 33 round keys are computed once by the constructor, `enc`/`dec` convert the block
+    with `Bits(block,bitorder=1)` and use them (`Serpent.encBytes key` = the constructor followed by this `enc`) -/
+def serpentObj (c : Serpent.Cipher) : BlockCipher :=
+  ⟨16, fun b => do let M ← Bits.ofBytes b none 1; let C ← Serpent.encBits c M; pure (Bits.pack C),
+       fun b => do let C ← Bits.ofBytes b none 1; let M ← Serpent.decBits c C; pure (Bits.pack M)⟩
+
 def serpent? (key : List Nat) : Except Err BlockCipher :=
   match (Bits.ofBytes key none 1 >>= Serpent.init) with
   | .error e => .error e
-  | .ok _ => .ok (serpent key)
+  | .ok c => .ok (serpentObj c)
 
 end Model.Mode.Ciphers
